@@ -181,6 +181,7 @@ type Exec struct {
 	steps     int
 	MaxSteps  int
 	pathConds []string
+	fiCache   map[*ssa.Function]*fnInfo
 	runningInit int
 	initDirect  *ssa.Function
 }
@@ -356,6 +357,29 @@ func (ex *Exec) Branch(c *term.T) bool {
 	ex.trace = append(ex.trace, 1)
 	ex.assertFact(c)
 	return true
+}
+
+// ForkConst forks k ways over a fresh unconstrained choice (no solver query:
+// all values are feasible because nothing constrains the choice yet).
+func (ex *Exec) ForkConst(k int) uint64 {
+	if k <= 1 {
+		return 0
+	}
+	if ex.dpos < len(ex.dec) {
+		d := ex.dec[ex.dpos]
+		ex.dpos++
+		ex.trace = append(ex.trace, d)
+		return d
+	}
+	// pending obligations are decided first so that a scheduled failure keeps its prefix
+	ex.flushObs()
+	ex.res.Branches++
+	for v := k - 1; v >= 1; v-- {
+		alt := append(append([]uint64(nil), ex.trace...), uint64(v))
+		ex.res.New = append(ex.res.New, WorkItem{Dec: alt, FailOb: -1})
+	}
+	ex.trace = append(ex.trace, 0)
+	return 0
 }
 
 // Concretize forks over the feasible values of t (at most max).
